@@ -198,7 +198,7 @@ def binarized(m, n, ip, lp):
 def conds(tier):
     q = tier == "quick"
     cs = []
-    for (mmax, n, to) in ([(3, 3, 100), (3, 4, 300)] if q else [(3, 4, 600), (4, 4, 900), (3, 5, 2400)]):
+    for (mmax, n, to) in ([(3, 3, 100), (3, 4, 300)] if q else [(3, 4, 600), (4, 4, 900)]):
         ns = len(_sk(mmax, n))
         cs.append(Cond("gaps-m%d-n%d" % (mmax, n), "harness.c16:gaps", [P("sk", "int", 0, ns)] + pos_params(n),
                        fixed={"mmax": mmax, "n": n}, pre=[distinct_expr(n)], shard=["sk"], timeout=to,
